@@ -221,6 +221,9 @@ func H_join(p []int) {
 	wf, ls := wfls(out)
 	vAssert(wf, "C01/wf")
 	vAssert(ls, "C03/lineSafe")
+	if vProp("C03") {
+		vAssert(linesWF(out), "C03/each-line-wf")
+	}
 	if validUTF8([]byte(s)) {
 		vAssert(bytesEq(mergeAdj(out), mergeAdj(want)), "C11/join-renders-operand")
 	}
